@@ -1,100 +1,94 @@
 /-
-Invariant of the read-ahead protocol (Model/ReaderLTS.lean) on paths without `Seek`: the blocks in flight
-are consecutive members of the file starting at the base the consumer expects; decompressors are conserved.
+Read-ahead protocol (Model/ReaderLTS.lean): blocks as results of loads, positions along the file, chains.
 -/
 import Hts.Model.ReaderLTS
 namespace Hts.Model.ReadAhead
 
-/-- `bs` are consecutive blocks of the file starting at base `e`, and `nx` is what follows them. -/
-def IsChain (chain : Chain) : Option Nat → List Blk → Option Nat → Prop
-  | e, [], nx => nx = e
-  | e, b :: bs, nx => e = some b.base ∧ b.next = chain b.base ∧ IsChain chain b.next bs nx
+/-- split a hypothesis `h : xxxStep … = some (e, t)` (already unfolded) into its branches -/
+macro "step_cases" h:ident : tactic =>
+  `(tactic| (repeat' (split at $h:ident)) <;>
+      first
+        | (cases $h:ident; done)
+        | (simp only [Option.some.injEq, Prod.mk.injEq] at $h:ident; obtain ⟨h1, h2⟩ := $h:ident; subst h1 h2)
+        | skip)
 
-theorem isChain_append {chain : Chain} {e : Option Nat} {bs : List Blk} {v : Nat}
-    (h : IsChain chain e bs (some v)) : IsChain chain e (bs ++ [⟨v, chain v⟩]) (chain v) := by
-  induction bs generalizing e with
-  | nil => simp only [IsChain] at h; subst h; exact ⟨rfl, rfl, rfl⟩
-  | cons b bs ih => exact ⟨h.1, h.2.1, ih h.2.2⟩
+/-- A block is what a load at its base can return: the member there, or a failure. -/
+def WFBlk (chain : Chain) (b : Blk) : Prop :=
+  match b.base with
+  | some t => b.next = chain t ∨ b.next = none
+  | none => b.next = none
 
-/-- Invariant of the protocol as long as no `Seek` is made. -/
-structure Inv (chain : Chain) (rd : Nat) (s : St) : Prop where
-  rd_eq : s.rd = rd
-  control : s.control = none
-  chain_ : IsChain chain s.cur.next (pipeline s) (wnext s)
-  count : s.waiting + s.working.length + held s = rd
-  cons : s.cons = .idle ∨ ∃ i, s.cons = .scan i ∧ i = 0 ∧ s.cur.next ≠ none
+/-- `d` members further along the file. -/
+def adv (chain : Chain) : Nat → Option Nat → Option Nat
+  | 0, T => T
+  | d + 1, T => match T with
+    | some t => adv chain d (chain t)
+    | none => none
 
-def noSeek (l : Label) : Bool := !l.isSeek
+/-- Member sizes are positive: the next base is larger. -/
+def Mono (chain : Chain) : Prop := ∀ b b', chain b = some b' → b < b'
 
-theorem inv_init (chain : Chain) (rd : Nat) : Inv chain rd (init chain rd) :=
-  ⟨rfl, rfl, rfl, by simp [init, held], Or.inl rfl⟩
+theorem adv_none (chain : Chain) (d : Nat) : adv chain d none = none := by
+  cases d <;> rfl
 
-theorem inv_step {chain : Chain} {rd : Nat} {s t : St} {l : Label} (h : Inv chain rd s)
-    (hl : noSeek l = true) (hs : Step chain s l t) : Inv chain rd t := by
-  obtain ⟨hrd, hctl, hch, hcnt, hcons⟩ := h
-  cases hs with
-  | wTake nx h1 h2 =>
-    refine ⟨hrd, hctl, ?_, ?_, hcons⟩
-    · simpa [pipeline, wnext, h1, Worker.pending, Worker.next] using hch
-    · simp only [held, h1] at hcnt ⊢; omega
-  | wRedirect nx v h1 h2 => rw [hctl] at h2; cases h2
-  | wRead b h1 h2 =>
-    refine ⟨hrd, hctl, ?_, ?_, hcons⟩
-    · simp only [pipeline, wnext, h1, Worker.pending, Worker.next, List.append_nil] at hch ⊢
-      exact isChain_append hch
-    · simp only [held, h1] at hcnt ⊢; omega
-  | wPush b h1 h2 =>
-    refine ⟨hrd, hctl, ?_, ?_, hcons⟩
-    · simpa [pipeline, wnext, h1, Worker.pending, Worker.next] using hch
-    · simp only [held, h1, List.length_append, List.length_singleton] at hcnt ⊢; omega
-  | cNext e h1 h2 =>
-    refine ⟨hrd, hctl, hch, ?_, Or.inr ⟨0, rfl, rfl, by rw [h2]; simp⟩⟩
-    simp only [held, h1] at hcnt ⊢; omega
-  | cRecv i b rest h1 h2 h3 =>
-    -- the first block received is the expected one
-    have hb : s.cur.next = some b.base ∧ b.next = chain b.base ∧
-        IsChain chain b.next (rest ++ s.worker.pending) (wnext s) := by
-      simpa [pipeline, h2, IsChain] using hch
-    simp only [hb.1, if_true]
-    refine ⟨hrd, hctl, ?_, ?_, Or.inl rfl⟩
-    · simpa [pipeline, wnext] using hb.2.2
-    · simp only [held, h1, h2, List.length_cons] at hcnt ⊢; omega
-  | cSeekFast h1 => simp [noSeek, Label.isSeek] at hl
-  | cSeekWaiting off h1 h2 => simp [noSeek, Label.isSeek] at hl
-  | cSeekWorking off b rest h1 h2 => simp [noSeek, Label.isSeek] at hl
-  | cSeekMatchSend h1 h2 => simp [noSeek, Label.isSeek] at hl
-  | cSeekSync off h1 => simp [noSeek, Label.isSeek] at hl
-  | cSeekSend h1 h2 => simp [noSeek, Label.isSeek] at hl
+theorem adv_succ (chain : Chain) (d : Nat) (T : Option Nat) :
+    adv chain (d + 1) T = (adv chain d T).bind chain := by
+  induction d generalizing T with
+  | zero => cases T <;> rfl
+  | succ d ih =>
+    cases T with
+    | none => simp [adv]
+    | some t => simp only [adv] at ih ⊢; exact ih (chain t)
 
-theorem inv_reach {chain : Chain} {rd : Nat} {s : St} (h : Reach chain rd noSeek s) : Inv chain rd s := by
-  induction h with
-  | init => exact inv_init chain rd
-  | step s t l _ hl hs ih => exact inv_step ih hl hs
+theorem adv_ge {chain : Chain} (hm : Mono chain) : ∀ (d t e : Nat), adv chain d (some t) = some e →
+    t ≤ e ∧ (0 < d → t < e) := by
+  intro d
+  induction d with
+  | zero => intro t e h; simp [adv] at h; omega
+  | succ d ih =>
+    intro t e h
+    simp only [adv] at h
+    cases hc : chain t with
+    | none => rw [hc, adv_none] at h; cases h
+    | some t' =>
+      rw [hc] at h
+      have := ih t' e h
+      have := hm t t' hc
+      omega
 
-/-- While the consumer waits in `nextBlock`, some thread can move. -/
-theorem scan_can_step {chain : Chain} {rd : Nat} (hrd : 1 ≤ rd) {s : St} (h : Inv chain rd s) (i : Nat)
-    (hc : s.cons = .scan i) : ∃ l t, noSeek l = true ∧ Step chain s l t := by
-  obtain ⟨hrd', hctl, hch, hcnt, hcons⟩ := h
-  rcases hcons with hidle | ⟨j, hj, hj0, hne⟩
-  · rw [hc] at hidle; cases hidle
-  · cases hw : s.working with
-    | cons b rest =>
-      refine ⟨.cRecv, _, rfl, Step.cRecv s j b rest hj hw ?_⟩
-      rw [hw] at hcnt; simp at hcnt; omega
-    | nil =>
-      cases hwk : s.worker with
-      | idle nx =>
-        refine ⟨.wTake, _, rfl, Step.wTake s nx hwk ?_⟩
-        simp only [held, hwk, hj, hw, List.length_nil] at hcnt; omega
-      | «have» nx =>
-        cases nx with
-        | some b => exact ⟨.wRead, _, rfl, Step.wRead s b hwk hctl⟩
-        | none =>
-          exfalso
-          simp only [pipeline, hw, hwk, Worker.pending, wnext, Worker.next, List.append_nil, IsChain] at hch
-          exact hne hch.symm
-      | push b =>
-        refine ⟨.wPush, _, rfl, Step.wPush s b hwk ?_⟩
-        rw [hw]; simp; omega
+/-- `new` is a run of consecutive members starting at `T`; a failed load ends it; `wn` is what the worker
+reads after it.  The last element may be a load the worker is committed to. -/
+def ChainFrom (chain : Chain) : Option Nat → List Slot → Option Nat → Prop
+  | T, [], wn => wn = T
+  | T, .blk b :: rest, wn => b.base = T ∧ WFBlk chain b ∧ ChainFrom chain b.next rest wn
+  | T, [.tgt x], _ => x = T
+  | _, .tgt _ :: _ :: _, _ => False
+
+theorem chainFrom_append_tgt {chain : Chain} {T : Option Nat} {new : List Slot} {x : Option Nat}
+    (h : ChainFrom chain T new x) (hl : ∀ y, Slot.tgt y ∉ new) (wn : Option Nat) :
+    ChainFrom chain T (new ++ [.tgt x]) wn := by
+  induction new generalizing T with
+  | nil => simp only [ChainFrom] at h; subst h; simp [ChainFrom]
+  | cons a rest ih =>
+    cases a with
+    | blk b =>
+      simp only [ChainFrom, List.cons_append] at h ⊢
+      exact ⟨h.1, h.2.1, ih h.2.2 (fun y hy => hl y (by simp [hy]))⟩
+    | tgt y => exact absurd (by simp) (hl y)
+
+theorem chainFrom_load {chain : Chain} {T : Option Nat} {pre : List Slot} {x : Option Nat} {b : Blk}
+    {wn : Option Nat} (h : ChainFrom chain T (pre ++ [.tgt x]) wn) (hb : b.base = x) (hw : WFBlk chain b) :
+    ChainFrom chain T (pre ++ [.blk b]) b.next := by
+  induction pre generalizing T with
+  | nil => simp only [List.nil_append, ChainFrom] at h ⊢; exact ⟨hb.trans h, hw, trivial⟩
+  | cons a rest ih =>
+    cases a with
+    | blk c =>
+      simp only [ChainFrom, List.cons_append] at h ⊢
+      exact ⟨h.1, h.2.1, ih h.2.2⟩
+    | tgt y =>
+      cases rest with
+      | nil => simp [ChainFrom] at h
+      | cons r rs => simp [ChainFrom] at h
 
 end Hts.Model.ReadAhead
